@@ -283,6 +283,47 @@ example :
       ≠ (canon kvs).map (fun t => t.run [del]) := by
   decide
 
+/-! ### `Store.Commit()` -/
+
+/-- **Tie to the source.** `root` is assigned exactly once in `(*Store).Commit`, by the top-level statement
+`root, err = s.Root()` (read off store/store.go by `facts` on every run): the root recorded for a height is the root of
+the tree `Root()` builds — for EVERY block, also one without pending operations on a database that has no commit id yet. -/
+theorem commit_takes_root_from_root : Gen.SmtFacts.commitTakesRootFromRoot = true := by decide
+
+/-- **The root committed for a height is the root of the canonical tree of (committed state updated by all pending
+operations)** — whatever a commit-id lookup (`recorded`) would find and whatever selection (`keep`) a filtering `Root()`
+would apply; in particular an empty block on the empty state commits the root of the canonical empty tree. Depends on
+`commit_takes_root_from_root` and `root_commits_exactly_the_pending_ops`. -/
+theorem store_commit_root_canonical {n : Nat} (hn : 4 ≤ n) {base : Trie} {S : KMap} {pending : List Op}
+    (keep : Op → Bool) (recorded : Bytes) (h : base.Rep n S) (hs : S.HasSentinels n) (ok : ParOK n S pending) :
+    ∃ t : Trie, storeCommitRoot Gen.SmtFacts.commitTakesRootFromRoot recorded none pending
+        (storeRootTree n none base (handedOps Gen.SmtFacts.rootCommitsPendingOpsUnfiltered keep pending)) = .ok t.root
+      ∧ t.Rep n (S.run (sortOps pending)) := by
+  obtain ⟨t, ht, hr⟩ := store_root_canonical hn keep h hs ok
+  exact ⟨t, by simp [storeCommitRoot, commit_takes_root_from_root, ht], hr⟩
+
+/-- a `Commit()` with a shortcut for empty blocks records what the commit-id lookup finds — nothing, on a fresh database -/
+example (t : Outcome Trie) : storeCommitRoot false [] none [] t = .ok [] := rfl
+
+/-! ### `Store.Rollback()` -/
+
+/-- **Tie to the source (generated from both sites).** The prefix `Store.Root()` writes the commitment tree under is among
+the prefixes `Store.Rollback(v)` prunes above `v`. -/
+theorem rollback_prunes_the_tree_prefix : Gen.SmtFacts.rootWritesPrefix ∈ Gen.SmtFacts.rollbackPrunedPrefixes := by decide
+
+/-- **The first root after a rollback is the canonical tree of (state committed for the target updated by the pending
+operations)**, whatever tree (`tip`) the abandoned fork had reached; depends on `rollback_prunes_the_tree_prefix`. -/
+theorem store_root_after_rollback_canonical {n : Nat} (hn : 4 ≤ n) {target : Trie} (tip : Trie) {S : KMap}
+    {pending : List Op} (keep : Op → Bool) (h : target.Rep n S) (hs : S.HasSentinels n) (ok : ParOK n S pending) :
+    ∃ t, storeRootTree n none
+        (rollbackTree Gen.SmtFacts.rollbackPrunedPrefixes Gen.SmtFacts.rootWritesPrefix target tip)
+        (handedOps Gen.SmtFacts.rootCommitsPendingOpsUnfiltered keep pending) = .ok t
+      ∧ t.Rep n (S.run (sortOps pending)) := by
+  have hr : rollbackTree Gen.SmtFacts.rollbackPrunedPrefixes Gen.SmtFacts.rootWritesPrefix target tip = target := by
+    simp [rollbackTree, rollback_prunes_the_tree_prefix]
+  rw [hr]
+  exact store_root_canonical hn keep h hs ok
+
 /-- a clone that inherited the source's cached tree would return it unchanged, whatever it is asked to write -/
 example (n : Nat) (t base : Trie) (pending : List Op) :
     storeRootTree n (copyCached true (some t)) base pending = .ok t := rfl
